@@ -81,6 +81,64 @@ def pattern_arms(F, R, eng):
     return res, f
 
 
+def matches_type_table(F, R):
+    # matches_type table
+    mt = F.fn("parser::ast::expr::MatchPattern::matches_type")
+    if R.anchor("MatchPattern::matches_type", mt):
+        e2 = Engine(F, {})
+        ps = mt["hir"]["params"]
+        st = St()
+        st.env[ps[0]["id"]] = ("ast", "self")
+        st.env[ps[1]["id"]] = ("ast", "other")
+        n = 0
+        bad = []
+        LITS = ("Integer", "Str", "Char", "Byte")
+
+        def ty_of(s, who, rname):
+            v = s.facts.get("v:" + who)
+            if v == "Default":
+                return "*"
+            if v != "Range":
+                return v
+            # range payload names differ per arm (r, r1, r2): find the payload bound for this side
+            best = "?"
+            for fk, fv in s.facts.items():
+                if fk.startswith("payload:") and fv == (who, "Range"):
+                    p = fk[len("payload:"):]
+                    bt, et = s.facts.get("v:" + p + ".begin"), s.facts.get("v:" + p + ".end")
+                    if bt is None and et is None:
+                        continue
+                    best = bt if bt == et and bt in LITS else ("?" if bt is None or et is None else None)
+            return best
+            return "?"
+        try:
+            for ctl, s, v in e2.ev(H.body_of(mt), st):
+                if not (v and v[0] == "bool"):
+                    bad.append(("not a boolean result", dict(s.facts)))
+                    continue
+                a, b_ = ty_of(s, "self", None), ty_of(s, "other", None)
+                if "?" in (a, b_):
+                    # a bound's kind was not inspected on this path: the answer must not depend on it
+                    if a == "*" or b_ == "*":
+                        want = True
+                    elif v[1] is False:
+                        n += 1
+                        continue
+                    else:
+                        bad.append(("accepts without inspecting both range bounds", {k: x for k, x in s.facts.items() if k.startswith("v:")}))
+                        continue
+                else:
+                    want = (a == "*" or b_ == "*") or (a is not None and a == b_)
+                n += 1
+                if v[1] != want:
+                    bad.append((a, b_, v[1]))
+        except Unsupported as e:
+            bad.append(("unsupported", str(e)))
+        R.ob("match-type-table", "matches_type(a, b) ⇔ a or b is the default pattern, or both have the same literal type (a range counts as the type of its two equal-typed bounds)",
+             not bad and n >= 40, "%d cases evaluated; mismatches %s" % (n, bad[:3]), F.loc(mt))
+        R.count("matches_type cases evaluated", n)
+
+
 def run(F, R, tier):
     R.explanation = EXPL
     R.assumptions += ["which value is falsey is C06's rule (is_falsey is the only truthiness test on these paths)",
@@ -272,61 +330,7 @@ def run(F, R, tier):
         # arms in source order, scrutinee popped once per body
         al = [H.render(x["scrut"]["args"][0]) for x in H.walk(b) if x.get("k") == "match" and x.get("src", "").startswith("ForLoopDesugar")]
         R.ob("match-arm-order", "arms and patterns are compiled in source order", "match_expr.arms.iter().enumerate()" in al and "&arm.patterns" in al, str(al), F.loc(mf))
-    # matches_type table
-    mt = F.fn("parser::ast::expr::MatchPattern::matches_type")
-    if R.anchor("MatchPattern::matches_type", mt):
-        e2 = Engine(F, {})
-        ps = mt["hir"]["params"]
-        st = St()
-        st.env[ps[0]["id"]] = ("ast", "self")
-        st.env[ps[1]["id"]] = ("ast", "other")
-        n = 0
-        bad = []
-        LITS = ("Integer", "Str", "Char", "Byte")
-
-        def ty_of(s, who, rname):
-            v = s.facts.get("v:" + who)
-            if v == "Default":
-                return "*"
-            if v != "Range":
-                return v
-            # range payload names differ per arm (r, r1, r2): find the payload bound for this side
-            best = "?"
-            for fk, fv in s.facts.items():
-                if fk.startswith("payload:") and fv == (who, "Range"):
-                    p = fk[len("payload:"):]
-                    bt, et = s.facts.get("v:" + p + ".begin"), s.facts.get("v:" + p + ".end")
-                    if bt is None and et is None:
-                        continue
-                    best = bt if bt == et and bt in LITS else ("?" if bt is None or et is None else None)
-            return best
-            return "?"
-        try:
-            for ctl, s, v in e2.ev(H.body_of(mt), st):
-                if not (v and v[0] == "bool"):
-                    bad.append(("not a boolean result", dict(s.facts)))
-                    continue
-                a, b_ = ty_of(s, "self", None), ty_of(s, "other", None)
-                if "?" in (a, b_):
-                    # a bound's kind was not inspected on this path: the answer must not depend on it
-                    if a == "*" or b_ == "*":
-                        want = True
-                    elif v[1] is False:
-                        n += 1
-                        continue
-                    else:
-                        bad.append(("accepts without inspecting both range bounds", {k: x for k, x in s.facts.items() if k.startswith("v:")}))
-                        continue
-                else:
-                    want = (a == "*" or b_ == "*") or (a is not None and a == b_)
-                n += 1
-                if v[1] != want:
-                    bad.append((a, b_, v[1]))
-        except Unsupported as e:
-            bad.append(("unsupported", str(e)))
-        R.ob("match-type-table", "matches_type(a, b) ⇔ a or b is the default pattern, or both have the same literal type (a range counts as the type of its two equal-typed bounds)",
-             not bad and n >= 40, "%d cases evaluated; mismatches %s" % (n, bad[:3]), F.loc(mt))
-        R.count("matches_type cases evaluated", n)
+    matches_type_table(F, R)
     # parser: default arm
     pm = F.fn("parser::rules::<impl parser::Parser>::parse_match_expr")
     if R.anchor("Parser::parse_match_expr", pm):
